@@ -59,7 +59,7 @@ def reg(spec):
 
 
 reg(Spec('C17', ['c17:C17'],
-         quick=[('CORRUPT', 1500), ('ADV', 1500), ('DUPLEX', 500), ('HDR', 500)],
+         quick=[('CORRUPT', 3000), ('ADV', 3000), ('DUPLEX', 1000), ('HDR', 1000)],
          thorough=[('CORRUPT', 40000), ('ADV', 40000), ('DUPLEX', 10000), ('HDR', 10000)],
          overrides={'ADV': {'adv_plausible': 0.4, 'adv_flood': 0.1, 'misuse': 0.15, 'misuse_focus': [0, 0, 4, 1],
                             'at_limit_attempts': 0.4, 'settings_bias': {3: [1, 2, 100]}}},
@@ -90,7 +90,7 @@ reg(Spec('C05', ['c05:C05'],
          rule=R_RUN + 'non-trivial = an advertised window was driven to zero at least once' + R_DISTINCT,
          assumptions=['applications acknowledge exactly the bytes they received (no manual window increments, no over-acknowledgement): the premise of the property']))
 reg(Spec('C07', ['c07:C07'],
-         quick=[('ADV', 2000), ('CORRUPT', 1500), ('DUPLEX', 500)],
+         quick=[('ADV', 4000), ('CORRUPT', 3000), ('DUPLEX', 1000)],
          thorough=[('ADV', 50000), ('CORRUPT', 30000), ('DUPLEX', 10000), ('RACE', 10000)],
          overrides={'ADV': {'misuse': 0.15, 'misuse_focus': [0, 0, 4], 'at_limit_attempts': 0.3, 'config_matrix': 0.4},
                     'CORRUPT': {'config_matrix': 0.3}},
@@ -101,7 +101,7 @@ reg(Spec('C18', ['c18:C18'],
          overrides={'ADV': {'adv_plausible': 0.5}},
          rule=R_RUN + 'non-trivial = at least one connection error (receive_data raised ProtocolError)' + R_DISTINCT))
 reg(Spec('C19', ['c19:C19'],
-         quick=[('CLOSE', 2500), ('CORRUPT', 1000), ('ADV', 500)],
+         quick=[('CLOSE', 5000), ('CORRUPT', 2000), ('ADV', 1000)],
          thorough=[('CLOSE', 50000), ('CORRUPT', 20000), ('ADV', 20000), ('RACE', 10000)],
          overrides={'CLOSE': {'settings_bias': {4: [3, 50, 1024, 65535]}, 'ops_boost': {'data': 2}}, 'CORRUPT': {'bad_preface': 0.08},
                     'ADV': {'bad_preface': 0.05}},
@@ -112,7 +112,7 @@ reg(Spec('C26', ['c26:C26'],
          overrides={'*': {'ops_boost': {'ping': 4}, 'ping_burst': 0.15, 'adv_ping_flood': 0.08}},
          rule=R_RUN + 'non-trivial = several PINGs in one receive_data call, or PINGs on a faulted direction' + R_DISTINCT))
 reg(Spec('C29', ['c29:C29'],
-         quick=[('MISUSE', 2500), ('RACE', 500), ('FLOW', 600)],
+         quick=[('MISUSE', 5000), ('RACE', 1000), ('FLOW', 1200)],
          thorough=[('MISUSE', 60000), ('RACE', 10000), ('CLOSE', 10000), ('FLOW', 10000)],
          overrides={'*': {'push': 0.15, 'rsv': 1.5}, 'FLOW': {'ops_boost': {'settings': 3}, 'settings_churn': 0.15}},
          rule=R_RUN + 'non-trivial = at least one public call raised' + R_DISTINCT))
@@ -136,7 +136,7 @@ reg(Spec('C13', ['c13:C13'],
                           'settings_bias': {3: [1, 2, 100]}, 'aftermath': 0.3, 'boundary': 0.25}},
          rule=R_RUN + 'non-trivial = a header-carrying call raised and a later one on the same endpoint succeeded' + R_DISTINCT))
 reg(Spec('C14', ['c14:C14'],
-         quick=[('HDR', 3000), ('DUPLEX', 500)],
+         quick=[('HDR', 6000), ('DUPLEX', 1000)],
          thorough=[('HDR', 80000), ('DUPLEX', 10000)],
          overrides={'*': {'misuse': 0.3, 'aftermath': 0.4, 'push': 0.15, 'ops_boost': {'push': 2}, 'at_limit_attempts': 0.4,
                           'settings_bias': {3: [1, 2, 100]}}},
@@ -158,19 +158,19 @@ reg(Spec('C08', ['c08:C08'],
                                'hdr_variety': 1.0, 'config_matrix': 0.6, 'misuse_focus': [0, 0, 4, 4, 14, 1, 2, 12, 12, 12, 12], 'poison_ok': True}},
          rule=R_RUN + 'non-trivial = at least one ordering call (headers/data/end/push/prioritize/alt-svc) was refused' + R_DISTINCT))
 reg(Spec('C09', ['c09:C09'],
-         quick=[('DUPLEX', 1200), ('RACE', 800), ('ADV', 2000), ('MISUSE', 600)],
+         quick=[('DUPLEX', 2400), ('RACE', 1600), ('ADV', 4000), ('MISUSE', 1200)],
          thorough=[('DUPLEX', 30000), ('RACE', 20000), ('ADV', 50000), ('MISUSE', 15000)],
          overrides={'*': {'top_ids': 0.08, 'adv_repromise': 0.12, 'push': 0.15}},
          rule=R_RUN + 'non-trivial = an id at a boundary / a skipped id was used, a header call failed, or a peer frame addressed an idle, skipped or closed id' + R_DISTINCT))
 reg(Spec('C10', ['c10:C10'],
-         quick=[('RACE', 2500), ('DUPLEX', 1000), ('ADV', 2500)],
+         quick=[('RACE', 5000), ('DUPLEX', 2000), ('ADV', 5000)],
          thorough=[('RACE', 60000), ('DUPLEX', 20000), ('ADV', 60000)],
          overrides={'*': {'settings_bias': {3: [0, 1, 1, 2, 3]}, 'at_limit_attempts': 0.4, 'ops_boost': {'open': 3, 'push': 3, 'settings': 2},
                           'settings_churn': 0.1, 'adv_new_streams': 0.35, 'misuse': 0.15, 'misuse_focus': [1, 1, 2, 0], 'aftermath': 0.4}},
          rule=R_RUN + 'non-trivial = a run that reached a concurrency limit (either direction)' + R_DISTINCT))
 
 reg(Spec('C22', ['c22:C22'],
-         quick=[('RACE', 2000), ('DUPLEX', 800), ('ADV', 1500), ('MISUSE', 500)],
+         quick=[('RACE', 4000), ('DUPLEX', 1600), ('ADV', 3000), ('MISUSE', 1000)],
          thorough=[('RACE', 50000), ('DUPLEX', 20000), ('ADV', 40000), ('MISUSE', 10000)],
          overrides={'*': {'push': 0.2, 'settings_bias': {2: [0, 0, 1]}, 'at_limit_attempts': 0.4, 'ops_boost': {'push': 6, 'settings': 2},
                           'misuse': 0.15, 'misuse_focus': [4, 4, 4, 0], 'aftermath': 0.4, 'adv_repromise': 0.1, 'empty_settings': 0.2}},
@@ -183,7 +183,7 @@ reg(Spec('C23', ['c23:C23'],
                     'ADV': {'prio_open': 0.5, 'big_headers': 0.2}},
          rule=R_RUN + 'non-trivial = invalid priority arguments, a self-dependency, or PRIORITY on an idle/closed stream' + R_DISTINCT))
 reg(Spec('C24', ['c24:C24'],
-         quick=[('DUPLEX', 1500), ('RACE', 800), ('ADV', 2000), ('MISUSE', 500)],
+         quick=[('DUPLEX', 3000), ('RACE', 1600), ('ADV', 4000), ('MISUSE', 1000)],
          thorough=[('DUPLEX', 30000), ('RACE', 20000), ('ADV', 50000), ('MISUSE', 10000)],
          overrides={'*': {'ops_boost': {'altsvc': 6, 'trailers': 2, 'push': 3}, 'push': 0.15, 'misuse': 0.2, 'misuse_focus': [0, 12, 12, 13, 10, 10], 'aftermath': 0.4,
                           'aftermath_fsm': True}},
@@ -217,7 +217,7 @@ reg(Spec('C16', ['c16:C16'],
          rule=R_RUN + 'non-trivial = a message with END_STREAM on HEADERS or on trailers was delivered (placements other than the last DATA)' + R_DISTINCT))
 
 reg(Spec('C20', ['c20:C20', 'c20:C20Credit'],
-         quick=[('RACE', 4000), ('DUPLEX', 1000)],
+         quick=[('RACE', 8000), ('DUPLEX', 2000)],
          thorough=[('RACE', 100000), ('DUPLEX', 20000), ('FLOW', 10000)],
          overrides={'*': {'ops_boost': {'race': 6, 'push': 3, 'gc': 2}, 'stall': 0.1, 'misuse': 0.03, 'no_manual_winc': True,
                           'small_closed': 0.5}},
